@@ -36,10 +36,10 @@ type PowerLawDistribution struct {
 /* -------------------------------------------------------------------------- */
 
 func NewPowerLawDistribution(alpha, xmin Scalar) (*PowerLawDistribution, error) {
-  if alpha.GetFloat64() <= 0.0 {
+  if alpha.GetFloat64() <= 1.0 {
     return nil, fmt.Errorf("invalid value for parameter alpha: %f", alpha.GetFloat64())
   }
-  if xmin.GetFloat64() == 0.0 {
+  if xmin.GetFloat64() <= 0.0 {
     return nil, fmt.Errorf("invalid value for parameter x_min: %f", xmin.GetFloat64())
   }
   // some constants
